@@ -45,10 +45,22 @@ fn gen_px(rng: &mut Rng, kind: u64, idx: u64) -> [f32; 3] {
             }
             p
         }
-        5 => {
-            let v = [0.0f32, 4.0, 1.0, -0.0];
-            [rng.pick(&v), rng.pick(&v), rng.pick(&v)]
-        }
+        5 => match idx % 3 {
+            0 => {
+                let v = [0.0f32, 4.0, 1.0, -0.0];
+                [rng.pick(&v), rng.pick(&v), rng.pick(&v)]
+            }
+            1 => {
+                // exact greys over the whole domain, negative ones included
+                let g = if rng.coin() { rng.range(-1.0, 4.0) } else { rng.range(-0.1, 0.1) } as f32;
+                [g, g, g]
+            }
+            _ => {
+                let g = rng.range(0.0, 4.0);
+                let s = 10f64.powf(-2.0 - 6.0 * rng.unit());
+                [g as f32, (g + (rng.unit() - 0.5) * s).max(0.0) as f32, (g + (rng.unit() - 0.5) * s).max(0.0) as f32]
+            }
+        },
         6 => {
             let i = idx % 4096;
             [(i & 15) as f32 / 15.0, ((i >> 4) & 15) as f32 / 15.0, ((i >> 8) & 15) as f32 / 15.0]
